@@ -59,6 +59,11 @@ def gen_case(rng, idx):
         model = "thread"  # (gevent is installed for the initiating side's interpreter only)
     act = rng.choice(GEVENT_ACTS if model == "gevent" else ACTS)
     removal = rng.choice(REMOVALS)
+    if removal == "exit_after_fork" and act not in ("idle", "blocked", "busy", "sleep", "swallow_kbi", "sigint_ignored", "daemon_threads", "gevent_sleep"):
+        # the helper keeps the pipes open: a worker that is writing into a pipe nobody reads any more (its receiver thread
+        # included, when it has to refuse a request) is connected to a living, silent peer - that is not the loss of the
+        # initiator the property speaks of
+        removal = "sigkill"
     gws = []
     if topo in ("via", "socket"):
         gws.append({"spec": "popen", "id": "m", "execmodel": "thread", "activity": rng.choice(("idle", "blocked")) if topo == "via" else "idle"})
